@@ -98,4 +98,18 @@ PROPS = {
             "collections contain only two-attribute tuples with an @ attribute (what 'set of (@, x) pairs' means); other sets are C01's domain",
         ],
     },
+    "C03": {
+        "level": "exploration",
+        "technique": "property-based testing (rapid): generated branching derivation histories (let chains); every value ever bound is observed after all derivations and compared with an independently computed model value",
+        "level_text": "Generated-input search over histories: 1-3 seed values (strings, byte arrays, arrays with offsets/holes, dictionaries, relations) and up to "
+                      "10 (thorough 20) derivation steps, each applied to an earlier value with a bias to old parents so that the same parent is extended "
+                      "several times: with at the end/front, without first/last, ++, | at the end, &, &~, >>, offset, where, //seq.trim_suffix, dict with/without/|/>>, "
+                      "relation with/|/without/where/nest and joins over derived and parent relations. The program returns all bound names at the end; each must "
+                      "equal its model value. Absence beyond the generated histories is not established.",
+        "level_note": "Trusted: the model value of every step (computed without sharing), rapid. Histories avoid (by construction, counted in classes) values the two open known findings cannot represent.",
+        "tests": [{"name": "TestC03", "quick": 1200, "thorough": 20000}],
+        "rule": "let-chain histories; non-trivial = a parent that is extended at its end at least twice (branching append) or an end-append applied to the result of dropping "
+                "the last element. Distinct = distinct program text.",
+        "assumptions": COMMON_ASSUMPTIONS,
+    },
 }
